@@ -8,7 +8,9 @@ import (
 
 	"github.com/formancehq/numscript/internal/analysis"
 	"github.com/formancehq/numscript/internal/parser"
+	"github.com/formancehq/numscript/internal/verifmc/gen"
 	"github.com/formancehq/numscript/internal/verifmc/mc"
+	"github.com/formancehq/numscript/internal/verifmc/verifrt"
 )
 
 // C18 Editor analysis survives any text: check, symbols, hover, definition don't crash.
@@ -53,6 +55,7 @@ func symSet(r *analysis.CheckResult) []string {
 }
 
 func runC18(w *mc.Worker) {
+	c18MapOrder(w)
 	textSpace(w, w.Tier, func(text string, edited bool) {
 		w.Journal(text)
 		c := Case{Script: text}
@@ -133,6 +136,72 @@ func runC18(w *mc.Worker) {
 		w.Eval(text, edited, outcome)
 		if edited {
 			w.Sample(outcome, c)
+		}
+	})
+}
+
+// c18MapOrder: the determinism clause under EVERY map iteration order. The build is
+// instrumented (bin/prebuild-C18): each `range` over a map in the analysis package iterates
+// verifrt.MapOrder, whose permutation is a choice of the explorer.
+func c18MapOrder(w *mc.Worker) {
+	budget, weight := 2, 1
+	if w.Tier == "thorough" {
+		budget, weight = 3, 2
+	}
+	w.Stage(fmt.Sprintf("map-order-P%d", budget), fmt.Sprintf("variable-rich generator scripts of weight <= %d and their single name edits: CheckSource + GetSymbols under every map iteration order (<= 4 keys, <= %d non-identity picks)", weight, budget), func() {
+		g := &Full{MaxStmts: 2, Depth: 1, VarsFree: true}
+		sawPoint := false
+		w.Outer("map-order/script", weight, func(o *mc.Explorer) {
+			prog := g.Program(o)
+			if len(prog.Vars) < 2 {
+				return
+			}
+			// one optional name edit so that unused / duplicate / unbound variables occur
+			if o.Choose(2) == 1 {
+				if _, ok := c16Edit(o, prog); !ok {
+					return
+				}
+			}
+			text := gen.Text(prog)
+			if !w.Mine(text) {
+				return
+			}
+			w.Owned()
+			verifrt.SetOrderChooser(nil)
+			var base analysis.CheckResult
+			if p, _ := guard(func() { base = analysis.CheckSource(text) }); p != "" {
+				return
+			}
+			bd, bs := strings.Join(diagSet(base), "\n"), strings.Join(symSet(&base), "\n")
+			w.Inner(budget, func(in *mc.Explorer) {
+				verifrt.SetOrderChooser(in)
+				var res analysis.CheckResult
+				var d, s string
+				pmsg, _ := guard(func() {
+					res = analysis.CheckSource(text)
+					d, s = strings.Join(diagSet(res), "\n"), strings.Join(symSet(&res), "\n")
+				})
+				if verifrt.MapPoints > 0 {
+					sawPoint = true
+				}
+				verifrt.SetOrderChooser(nil)
+				perm := fmt.Sprint(in.Choices())
+				w.Eval("perm|"+text+"|"+perm, strings.ContainsAny(perm, "123"), fmt.Sprintf("map-order same=%v", pmsg == "" && d == bd && s == bs))
+				if pmsg != "" {
+					w.Violation("C18.panic:map-order", "analysis panicked under a particular map iteration order: "+pmsg, len(text), Case{Script: text, Observed: "picks " + perm})
+					return
+				}
+				if d != bd {
+					w.Violation("C18.nondeterministic-diagnostics", "the set of diagnostics depends on the order in which a map is iterated", len(text), Case{Script: text, Observed: "picks " + perm + ": " + d, Expected: bd})
+				}
+				if s != bs {
+					w.Violation("C18.nondeterministic-symbols", "the set of symbols depends on the order in which a map is iterated", len(text), Case{Script: text, Observed: "picks " + perm + ": " + s, Expected: bs})
+				}
+			})
+		})
+		if !w.IsReplay() && w.Rep.OuterCases > 0 && !sawPoint {
+			w.Count("harness_errors", 1)
+			w.Rep.Notes = append(w.Rep.Notes, "map-order stage saw no instrumented range point: the build is not instrumented")
 		}
 	})
 }
